@@ -28,6 +28,13 @@
 (* register shows idle.  The slave pulls SDA low only in the bit slots that *)
 (* are its own (acknowledge of a written byte, data bits of a read byte)    *)
 (* and changes SDA only while SCL is low (Consistent).                      *)
+(* Software may also issue a condition command that has nothing to do       *)
+(* (driver clean-up / error paths): STOP while no byte phase is open (bus   *)
+(* free, or straight after a START: START followed by STOP is a void        *)
+(* message, an illegal I2C format) and START straight after a START.  Such  *)
+(* a command ("nop") must leave both lines alone - the master emits START / *)
+(* STOP conditions only where a frame needs them - and the core must report *)
+(* idle again; the bus state is unchanged.                                  *)
 (***************************************************************************)
 EXTENDS PeriphCommon, FiniteSets
 
@@ -50,8 +57,11 @@ Init0 == [wb |-> <<>>, bus |-> "free", cmd |-> <<>>, pscl |-> 1, psoe |-> 0, psd
 
 CmdWords(c) ==
   LET has(x) == x \in SeqSet(c.cmds) IN
-  CASE m.bus = "free"  -> IF has("start") THEN { <<START, 0>> } ELSE {}
-    [] m.bus = "start" -> IF has("write") THEN { <<WRITE + b, g>> : b \in SeqSet(c.bytes), g \in {1, 2} } ELSE {}
+  CASE m.bus = "free"  -> (IF has("start") THEN { <<START, 0>> } ELSE {}) \cup
+                          (IF has("stop") THEN { <<STOP, 0>> } ELSE {})                  \* nothing to stop
+    [] m.bus = "start" -> (IF has("write") THEN { <<WRITE + b, g>> : b \in SeqSet(c.bytes), g \in {1, 2} } ELSE {}) \cup
+                          (IF has("stop") THEN { <<STOP, 0>> } ELSE {}) \cup             \* would be a void message
+                          (IF has("start") THEN { <<START, 0>> } ELSE {})                \* START already on the bus
     [] OTHER -> (IF has("write") THEN { <<WRITE + b, g>> : b \in SeqSet(c.bytes), g \in {1, 2} } ELSE {}) \cup
                 (IF has("read") THEN { <<READ + a * ACKBIT, g>> : a \in {0, 1}, g \in 1..Len(c.sbytes) } ELSE {}) \cup
                 (IF has("stop") THEN { <<STOP, 0>> } ELSE {}) \cup
@@ -103,14 +113,17 @@ CStep(c, iv, o) ==
       issue == m.wb # <<>> /\ wack = 1 /\ ~busy
       early == m.wb # <<>> /\ wack = 1 /\ busy
       w     == m.wb[1]
-      kind  == IF Kind(w) = "start" /\ m.bus = "low" THEN "restart" ELSE Kind(w)
+      kind  == IF Kind(w) = "start" /\ m.bus = "low" THEN "restart"
+               ELSE IF (Kind(w) = "stop" /\ m.bus # "low") \/ (Kind(w) = "start" /\ m.bus = "start") THEN "nop"
+               ELSE Kind(w)
       newx  == [k |-> kind, d |-> IF kind = "read" THEN c.sbytes[m.wb[2]] ELSE w % 256,
                 a |-> IF kind = "write" THEN m.wb[2] - 1 ELSE (w \div ACKBIT) % 2,
                 r |-> 0, f |-> 0, f0 |-> B(m.bus = "start"), ss |-> 0, rx |-> 0]
       \* ---- clauses
       \* (a) SDA never changes together with SCL; while SCL is high only as the START / STOP the
-      \*     command in flight asks for, once
+      \*     command in flight asks for, once; a condition command with nothing to do leaves SDA alone
       oksda == /\ ((rise \/ fall) => ~sdac)
+               /\ (busy /\ x.k = "nop" => ~sdac)
                /\ (cond => (busy /\ x.ss = 0 /\
                             CASE x.k = "start" -> sda = 0
                               [] x.k = "restart" -> sda = 0 /\ x.r = 1
@@ -118,7 +131,7 @@ CStep(c, iv, o) ==
                               [] OTHER -> FALSE))
       \* (b) clock edges only inside a byte / restart / stop command, never more than it needs
       okseq == /\ ((rise \/ fall) => busy)
-               /\ (busy /\ rise => x.r + 1 <= (IF x.k \in {"write", "read"} THEN 9 ELSE IF x.k = "start" THEN 0 ELSE 1))
+               /\ (busy /\ rise => x.r + 1 <= (IF x.k \in {"write", "read"} THEN 9 ELSE IF x.k \in {"start", "nop"} THEN 0 ELSE 1))
                /\ (busy /\ fall => (x.k \in {"write", "read"} /\ x.f + 1 <= 9 + x.f0))
       \* (c) a written byte is on SDA MSB first at the eight rising edges and the master releases SDA
       \*     for the acknowledge; a read byte: SDA released for eight bits, then the master's ack bit
@@ -137,6 +150,7 @@ CStep(c, iv, o) ==
       complete == CASE x.k = "start"   -> ssn /\ scl = 1 /\ sdaoe = 1
                     [] x.k = "restart" -> ssn /\ x.r = 1 /\ scl = 1 /\ sdaoe = 1
                     [] x.k = "stop"    -> ssn /\ x.r = 1 /\ scl = 1 /\ sdaoe = 0
+                    [] x.k = "nop"     -> ~ssn /\ x.r = 0 /\ x.f = 0 /\ scl = 1 /\ sdaoe = B(m.bus = "start")
                     [] OTHER           -> x.r = 9 /\ scl = 0
       finish == busy /\ ~issue /\ stidle = 1
       okidle == /\ (finish => complete)
@@ -151,7 +165,8 @@ CStep(c, iv, o) ==
   IN
   /\ m' = [wb   |-> IF m.wb # <<>> THEN (IF wack = 1 THEN <<>> ELSE m.wb)
                     ELSE IF iv[1] = 1 THEN <<iv[2], iv[4]>> ELSE <<>>,
-           bus  |-> IF finish THEN (CASE x.k \in {"start", "restart"} -> "start" [] x.k = "stop" -> "free" [] OTHER -> "low")
+           bus  |-> IF finish THEN (CASE x.k \in {"start", "restart"} -> "start" [] x.k = "stop" -> "free"
+                                     [] x.k = "nop" -> m.bus [] OTHER -> "low")
                     ELSE m.bus,
            cmd  |-> nx,
            pscl |-> scl, psoe |-> sdaoe, psda |-> sda,
@@ -168,6 +183,8 @@ CStep(c, iv, o) ==
   /\ WitIf(finish /\ x.k = "stop", c, 3, "stop")
   /\ WitIf(finish /\ x.k = "restart", c, 4, "repeated start")
   /\ WitIf(early, c, 5, "command written while busy")
+  /\ WitIf(finish /\ x.k = "nop" /\ m.bus = "free", c, 6, "stop on a free bus")
+  /\ WitIf(finish /\ x.k = "nop" /\ m.bus = "start", c, 7, "stop or start straight after a start")
 
 SdaOnlyStartStop  == obs.oksda
 ClocksPerCommand  == obs.okseq
